@@ -100,6 +100,9 @@ func (g *Group[K, V]) Do(key K, fn func() (V, error)) (v V, err error, shared bo
 	}
 	if c, ok := g.m[key]; ok {
 		_ = c.dups.Add(1)
+		if verifOn {
+			verifAt(VpSfJoinLocked, g, key, c)
+		}
 		g.mu.Unlock()
 		if verifOn {
 			verifAt(VpSfJoined, g, key, c)
